@@ -27,11 +27,12 @@ import (
 //	schema ops, per table (a: INTEGER PRIMARY KEY alias, b: hidden rowid):
 //	  ALTER TABLE RENAME COLUMN, ADD COLUMN, ADD COLUMN .. DEFAULT, DROP COLUMN,
 //	  RENAME TO, DROP TABLE + CREATE TABLE of the same name with other columns;
-//	  CREATE TABLE of a new table c
+//	  CREATE TABLE of a new table c; a table Ord written to, dropped and re-created as ord
+//	  (and the reverse): names that differ only in letter case, under the case-sensitive filter
 //	row changes, per table: single-row INSERT, two-row INSERT, UPDATE of every row,
-//	  DELETE of one row, DELETE of every row; INSERT into c
+//	  DELETE of one row, DELETE of every row; INSERT into c; INSERT into ord/Ord
 //
-// is executed x transaction flag x filter {none, ^a} x ids-only x entry point
+// is executed x transaction flag x filter {none, ^(a|a2|ord)$ (case-sensitive)} x ids-only x entry point
 // {Execute, Request} on a real WAL database with the real CDCStreamer wired as
 // store.fsmApply wires it. Statements that fail (a column that no longer
 // exists, a table not yet created) are part of the alphabet.
@@ -85,6 +86,19 @@ func c27sMenu() []c27sSym {
 		add("del1", "", one("DELETE FROM {T} WHERE t LIKE 'y%'"))
 		add("delAll", "", one("DELETE FROM {T}"))
 	}
+	// Table names that differ only in letter case (SQLite forbids the two to coexist, so one is
+	// written to, dropped, and the other created): with the case-sensitive filter only "ord"
+	// is to be captured, by the table's real name at the time of the change.
+	dcols := "(k INTEGER PRIMARY KEY, t TEXT, r REAL, y BLOB)"
+	m = append(m, c27sSym{name: "writeUpperRecreateLower(d)", logical: "d", ddl: "recreate-other-case", render: func(string) []string {
+		return []string{"CREATE TABLE Ord" + dcols, "INSERT INTO Ord(r,t,y) VALUES(1.5,'o',x'02')", "DROP TABLE Ord", "CREATE TABLE ord" + dcols}
+	}})
+	m = append(m, c27sSym{name: "writeLowerRecreateUpper(d)", logical: "d", ddl: "recreate-other-case", render: func(string) []string {
+		return []string{"CREATE TABLE ord" + dcols, "INSERT INTO ord(r,t,y) VALUES(1.5,'o',x'02')", "DROP TABLE ord", "CREATE TABLE Ord" + dcols}
+	}})
+	m = append(m, c27sSym{name: "ins1(d)", logical: "d", render: func(string) []string {
+		return []string{"INSERT INTO ord(r,t,y) VALUES(3.5,'p',x'01')"} // resolves to Ord or ord, whichever exists
+	}})
 	m = append(m, c27sSym{name: "createTable(c)", logical: "c", ddl: "create-table", render: func(string) []string {
 		return []string{"CREATE TABLE c(k INTEGER PRIMARY KEY, t TEXT, r REAL, y BLOB)"}
 	}})
@@ -94,6 +108,9 @@ func c27sMenu() []c27sSym {
 	return m
 }
 
+// c27sFilterRe is case-sensitive: it matches a, a2 and ord, and neither b, b2, c nor Ord.
+const c27sFilterRe = "^(a|a2|ord)$"
+
 func c27sOther(cur string) string {
 	if strings.HasSuffix(cur, "2") {
 		return strings.TrimSuffix(cur, "2")
@@ -102,7 +119,7 @@ func c27sOther(cur string) string {
 }
 
 var c27sResetSQL = []string{
-	"DROP TABLE IF EXISTS a", "DROP TABLE IF EXISTS a2", "DROP TABLE IF EXISTS b", "DROP TABLE IF EXISTS b2", "DROP TABLE IF EXISTS c",
+	"DROP TABLE IF EXISTS a", "DROP TABLE IF EXISTS a2", "DROP TABLE IF EXISTS b", "DROP TABLE IF EXISTS b2", "DROP TABLE IF EXISTS c", "DROP TABLE IF EXISTS ord",
 	"CREATE TABLE a (id INTEGER PRIMARY KEY, i INTEGER, r REAL, t TEXT, y BLOB, n)",
 	"CREATE TABLE b (i INTEGER, r REAL, t TEXT, y BLOB, n)",
 	"INSERT INTO a(id,i,r,t,y,n) VALUES(1,10,1.5,'x',x'00ff',NULL),(3,NULL,-2.0,'y',x'',7)",
@@ -119,13 +136,17 @@ type c27sStmt struct {
 }
 
 func c27sRender(prog []c27sSym) []c27sStmt {
-	cur := map[string]string{"a": "a", "b": "b", "c": "c"}
+	cur := map[string]string{"a": "a", "b": "b", "c": "c", "d": "ord"}
 	last := map[string]string{}
 	var out []c27sStmt
 	for _, s := range prog {
 		for _, q := range s.render(cur[s.logical]) {
 			st := c27sStmt{SQL: q, sym: s.name, logical: s.logical, ddl: s.ddl}
-			if s.ddl == "" {
+			if s.ddl != "" && (strings.HasPrefix(q, "INSERT") || strings.HasPrefix(q, "UPDATE") || strings.HasPrefix(q, "DELETE")) {
+				// a row change inside a composite schema symbol is judged like any other row change
+				st.ddl = ""
+				st.ctx = "in-" + s.ddl
+			} else if s.ddl == "" {
 				st.ctx = "no-schema-change"
 				if l := last[s.logical]; l != "" {
 					st.ctx = "after-" + l
@@ -725,7 +746,7 @@ func TestVerif_C27_schema(t *testing.T) {
 	defer r.Finish()
 	menu := c27sMenu()
 	maxLen := r.Pick(2, 3)
-	r.Rule(fmt.Sprintf("every program of 0..%d symbols over a menu of %d (per table a [INTEGER PRIMARY KEY alias] / b [hidden rowid]: RENAME COLUMN, ADD COLUMN, ADD COLUMN DEFAULT, DROP COLUMN, RENAME TO, DROP+CREATE with other columns, 1-row INSERT, 2-row INSERT, UPDATE all, DELETE one, DELETE all; CREATE TABLE c, INSERT into c) x transaction flag x filter {none, ^a} x ids-only x entry point {Execute, Request}; a case is one request on a freshly reset 2+2-row database; expected events of each statement = rowid diff of a plain-SQLite shadow's table images around it, with the shadow's column names at that moment; distinct = delivered (op,table,ids,values present,#names,error) sequences with group boundaries", maxLen, len(menu)))
+	r.Rule(fmt.Sprintf("every program of 0..%d symbols over a menu of %d (per table a [INTEGER PRIMARY KEY alias] / b [hidden rowid]: RENAME COLUMN, ADD COLUMN, ADD COLUMN DEFAULT, DROP COLUMN, RENAME TO, DROP+CREATE with other columns, 1-row INSERT, 2-row INSERT, UPDATE all, DELETE one, DELETE all; CREATE TABLE c, INSERT into c; write Ord + drop + create ord and the reverse, INSERT into ord/Ord) x transaction flag x filter {none, case-sensitive ^(a|a2|ord)$} x ids-only x entry point {Execute, Request}; a case is one request on a freshly reset 2+2-row database; expected events of each statement = rowid diff of a plain-SQLite shadow's table images around it, with the shadow's column names at that moment; distinct = delivered (op,table,ids,values present,#names,error) sequences with group boundaries", maxLen, len(menu)))
 	r.Assume("what a DDL statement itself must emit (DROP TABLE, DROP COLUMN, RENAME TO) is left open by the property: no event, or exactly the statement's image diff, are both accepted")
 	r.Assume("within one statement the order of events is not judged (the image diff has no order); across statements it is")
 
@@ -744,7 +765,7 @@ func TestVerif_C27_schema(t *testing.T) {
 		gen(nil, n)
 	}
 	var cfgs []c27Cfg
-	for _, f := range []string{"", "^a"} {
+	for _, f := range []string{"", c27sFilterRe} {
 		for _, ids := range []bool{false, true} {
 			for _, en := range []string{"Execute", "Request"} {
 				cfgs = append(cfgs, c27Cfg{f, ids, en})
